@@ -217,6 +217,8 @@ type Gen struct {
 	curPos  token.Pos
 	bodyless bool
 	strConsts map[string]Val
+	fuelDecl bool
+	axDone map[string]bool
 	pendingArgAddrs map[string]*Addr
 	pendingFamMods []string
 	modEffs []Effect
